@@ -79,6 +79,9 @@ func c08Build(cfg map[string]interface{}, rng *rand.Rand) (p4 string, grid [][2]
 		if rng.Intn(4) == 0 { // a single standard parallel
 			lat2 = lat1
 		}
+		if !hasHome && rng.Intn(2) == 0 { // a central meridian next to the antimeridian: part of the positions lie across it
+			lon0 = math.Copysign(r(150, 178), float64(rng.Intn(2))-0.5)
+		}
 		if hasHome { // parallels around the datum's home latitude (never symmetric about the equator)
 			lat1, lat2 = math.Round(home[1])-4, math.Round(home[1])+5
 			if lat1 == -lat2 {
